@@ -2,6 +2,7 @@ import Genq.Props.C04
 open Genq.Vars
 open Genq
 open Genq.Codec
+open Genq
 #print axioms C04_keys_subset
 #print axioms C04_omitted_iff
 #print axioms C04_no_omitempty_all_sent
@@ -10,3 +11,4 @@ open Genq.Codec
 #print axioms C04_field_omitted_iff_empty_model
 #print axioms C04_unmarked_field_always_sent_model
 #print axioms C04_encoding_cases_model
+#print axioms C04_operation_template_tie
